@@ -6,6 +6,7 @@ import (
 	"context"
 	"crypto/sha256"
 	"encoding/binary"
+	"encoding/hex"
 	"errors"
 	"fmt"
 	"math/big"
@@ -81,6 +82,14 @@ func NewEngine() *Engine {
 		counters: map[string]int{},
 		Timeout:  1500 * time.Millisecond,
 	}
+}
+
+// SetFault installs (or clears, with nil) the fault script.
+func (e *Engine) SetFault(f func(method string, n int, attr bool) string) {
+	e.mu.Lock()
+	defer e.mu.Unlock()
+	e.FaultAt = f
+	e.counters = map[string]int{}
 }
 
 func (e *Engine) ResetCounters() {
@@ -189,7 +198,7 @@ func (a *EngineAPI) GetChainConfig() *params.ChainConfig {
 	return &params.ChainConfig{ChainID: big.NewInt(48815), Goat: &params.GoatConfig{}}
 }
 
-func hs(h common.Hash) string { return hexutil.Encode(h[:4]) }
+func hs(h common.Hash) string { return hex.EncodeToString(h[:6]) }
 
 func (a *EngineAPI) ForkchoiceUpdatedV3(ctx context.Context, st engine.ForkchoiceStateV1, attrs *engine.PayloadAttributes) (engine.ForkChoiceResponse, error) {
 	e := a.E
